@@ -23,7 +23,8 @@ AVH19 = vf.HARNESS / "target" / "release" / "avh_c19"
 ACTIONS = ["Call", "Begin", "Finish", "Observe", "Return", "Done"]
 BROKEN = {"MC_Settings_broken_writeonce.cfg": "WriteOnce",
           "MC_Settings_broken_agreement.cfg": "Agreement",
-          "MC_Settings_broken_exactlyonesetsucceeds.cfg": "ExactlyOneSetSucceeds"}
+          "MC_Settings_broken_exactlyonesetsucceeds.cfg": "ExactlyOneSetSucceeds",
+          "MC_Settings_broken_linearizable.cfg": "Linearizable"}
 
 RULE = ("Model: TLC enumerates every interleaving of 3 threads x <= 2 calls (set / use) on 2-3 once-cells (MC_Settings_*.cfg),"
         " exhaustively within those bounds. Implementation: each trial is one fresh process running one program"
@@ -79,7 +80,7 @@ def small_jobs(work, tier):
         cfg, extra = job
         return cfg, vf.tlc(work, "MC_Settings.tla", cfg, workers=1, timeout=900, extra=extra, meta="md-" + cfg[:-4], xmx="2g")
 
-    ex = ThreadPoolExecutor(max_workers=4)
+    ex = ThreadPoolExecutor(max_workers=3)
     return ex, [ex.submit(small, j) for j in jobs]
 
 
@@ -104,6 +105,8 @@ def small_results(rep, ex, futures):
     for cfg, propname in BROKEN.items():
         r = results[cfg]
         names = {x for pair in r.violated for x in pair if x}
+        if re.search(r"Action property line .* of module AtomicSettings is violated", r.out):
+            names.add("Linearizable")        # a step of SpecBroken that is no step of the atomic contract
         if propname not in names:
             raise vf.ToolError(f"vacuity: TLC did not find the {propname} counterexample for check-then-set ({cfg}):\n{tail(r.out)}")
         rep.add_states(r.distinct, r.generated)
@@ -266,7 +269,7 @@ def run(prop, tier, seed, replay=None):
     else:
         scns = model_check(work, rep, tier)
         small = small_jobs(work, tier)          # runs while the harness executes the trials
-        n_tlc, n_rand = (60, 140) if tier == "quick" else (600, 3400)
+        n_tlc, n_rand = (60, 140) if tier == "quick" else (600, 2400)
         picked = rng.sample(scns, min(n_tlc, len(scns)))
         progs = []
         for s in picked:
